@@ -17,7 +17,7 @@ let run (path : string) : unit =
           count "frequency";
           if string_of_mz mf <> f then mismatch "sketch" ln "frequency model=%s impl=%s" (string_of_mz mf) f
       | [ "A"; rc; rv; rnd; b ] ->
-          let mb = M.admit !s (z rc) (z rv) (z rnd) in
+          let mb = M.accept !s (z rc) (z rv) (z rnd) in
           count "admit";
           if (if mb then "1" else "0") <> b then mismatch "sketch" ln "admit model=%b impl=%s" mb b
       | "S" :: size :: sample :: bmask :: ini :: n :: words ->
